@@ -52,6 +52,18 @@ Theorem C27_refine : forall s, valid s = true -> forall cur real, family s cur r
 Proof. exact refine_exact. Qed.
 Print Assumptions C27_refine.
 
+(* lookup by primary key through entity e (E[pk], E.get) when the identity map already holds the object: loaded with its real class, or as
+   an unloaded seed created for a reference typed cur.  The result is the object with its creation class iff that class is e or below
+   -- for whatever discriminator value (0 and '' included); for a seed: whenever e and the reference type lie on one line of descent *)
+Theorem C27_lookup_loaded : forall s, valid s = true -> forall e real, find_in_cache s true e real false real = lookup_spec s e real.
+Proof. exact find_loaded. Qed.
+Print Assumptions C27_lookup_loaded.
+Theorem C27_lookup_seed_except_known : forall s, valid s = true -> forall e cur real, family s cur real ->
+  (issub s e cur = true \/ issub s cur e = true) ->
+  find_in_cache s true e cur true real = lookup_spec s e real.
+Proof. exact find_seed. Qed.
+Print Assumptions C27_lookup_seed_except_known.
+
 (* non-vacuity: a two-tree schema with a diamond is accepted; sample values *)
 Example C27_nonvacuous :
   valid s_diamond = true /\
